@@ -138,7 +138,7 @@ Dep == [m \in Modes |-> [c \in Classes |-> [i \in Inputs |->
 PkgClasses == {"scoped", "importpath", "position", "asm"}
 ReqSeeded(c, i) ==
   CASE i = "seed" -> "must change"
-    [] i = "pkgpath" -> IF c \in PkgClasses THEN "must change" ELSE "must not change"
+    [] i = "pkgpath" -> IF c \in PkgClasses THEN "must change" ELSE IF c = "field" THEN "must not change" ELSE "unspecified"
     [] i = "tiny" /\ c = "position" -> "unspecified"      \* -tiny removes position names altogether
     [] OTHER -> "must not change"
 ReqUnseeded(c, i) ==
@@ -207,6 +207,7 @@ Env13(c) == [CanonBase("unseeded") EXCEPT !.seed = IF c = "seed" THEN "A" ELSE "
                                           !.gg = IF c = "gogarble" THEN "mod" ELSE "all", !.tag = (c = "tags")]
 Objs == {o \in [kind : Kinds, exported : BOOLEAN, role : Roles] : o.kind \in NoExportKinds => o.exported}
 Row(o) == [kind |-> o.kind, exported |-> o.exported, role |-> o.role, renamed |-> Renamed(o), listed |-> ListedByMap(o),
+           reachable |-> ApiReachable(o),
            salt |-> IF o.kind \in FieldKinds THEN "struct" ELSE "package",
            mapEqBuild |-> MapEqBuildAt(o, Env13("default")), reversed |-> ReverseInvertsAt(o, Env13("default"))]
 Table13 == [rows |-> {Row(o) : o \in Objs}]
